@@ -8,6 +8,6 @@ tree, the normalised text (comments, layout, local names, log/trace statements r
 written from and validated against by the differential runs.  `decide` over the regenerated
 finite table. -/
 theorem C11_T1_mirrored_code_unchanged :
-    Generated.FuncSkelC11.funcs = Expect.FuncSkelC11.funcs := by decide
+    Generated.FuncSkelC11.funcs = Expect.FuncSkelC11.funcs := by decide +kernel
 
 end MaddyVerif.T1
